@@ -9,7 +9,10 @@ Parts (DESIGN §2.4):
                     universe, seeded random deeper pairs (related by mutation so that both answers are common)
   4. semantic oracle whenever either side answers True: layouts parsed from str(a), str(b) by an independent
                     parser must be equal and algosdk must encode sample values identically under both strings
-  5. gates          SubroutineDefinition.invoke and InnerTxnBuilder.MethodCall accept an ABI argument iff assignable
+  5. gates          SubroutineDefinition.invoke and InnerTxnBuilder.MethodCall accept an ABI argument iff assignable;
+                    direct assignment dst.set(<ABI value>) for every ordered pair of the universe, member assignment
+                    (Tuple.set / Array.set) and dst.set(<ComputedValue>) accept iff the modelled per-class test does,
+                    and every ACCEPTED call is judged by the oracle (same layout, same encodings)
   6. known findings replayed;  7. verdict
 """
 import itertools
@@ -556,6 +559,95 @@ def main(argv):
             accepted = r[0] == "ok"
             if accepted != want or accepted != (kb == "any" or ka == kb):
                 gate_fail.append({"kind": "gate-methodcall-txn", "a": ka, "b": kb, "str_a": AB.TXN_STR[ka], "str_b": AB.TXN_STR[kb], "model_assignable": want, "call": "accepted" if accepted else r[1:]})
+    # ---- direct assignment: dst.set(<ABI value>), member assignment, dst.set(<ComputedValue>) ----
+    # (each abi class has its own acceptance test in `set`; none goes through type_spec_is_assignable_to)
+    class _CV(abi.ComputedValue):
+        def __init__(self, spec):
+            self._spec = spec
+
+        def produced_type_spec(self):
+            return self._spec
+
+        def store_into(self, output):
+            return pt.Seq()
+
+    def instance_of(A):
+        """an instance whose type_spec() is exactly A (placeholder named-tuple classes do not round-trip)"""
+        try:
+            i = A.new_instance()
+            B = i.type_spec()
+            return i if (type(B) is type(A) and B == A and A == B and str(B) == str(A)) else None
+        except Exception:  # noqa
+            return None
+
+    def try_call(fn):
+        r = call_real(fn)
+        return (True, "accepted") if r[0] == "ok" else (False, r[1])
+
+    set_stats = {"set_calls": 0, "set_accepted": 0, "elem_calls": 0, "elem_accepted": 0, "computed_calls": 0, "computed_accepted": 0,
+                 "non_pyteal_exceptions": {}}
+
+    def record(kind, ta, tb, sa, sb, want, ok, how):
+        """compare one gate call with the model; an ACCEPTED call is also judged by the oracle directly"""
+        if not ok and how not in PYTEAL_ERRORS:
+            set_stats["non_pyteal_exceptions"][how] = set_stats["non_pyteal_exceptions"].get(how, 0) + 1
+        bad = None
+        if ok:
+            key = (sa, sb)
+            if key not in oracle_cache:
+                oracle_cache[key] = oracle_pair(ck, sa, sb, ck.rng, 2)
+            bad = oracle_cache[key]
+            # the oracle's transaction rule is directional; for a plain copy only identical kinds are the same thing
+        if ok != want or bad is not None:
+            gate_fail.append({"kind": kind, "a": AB.ty_text(ta), "b": AB.ty_text(tb), "a_json": ta, "b_json": tb, "str_a": sa, "str_b": sb,
+                              "model_assignable": want, "call": "accepted" if ok else how})
+
+    SU = [(t, A) for t, A in zip(U, specs)]
+    SI = [(t, A, instance_of(A)) for t, A in SU]
+    SI = [(t, A, i) for (t, A, i) in SI if i is not None]
+    dsts = [(t, A, i) for (t, A, i) in SI if hasattr(i, "set")]
+    s_types = [t for (t, _, _) in SI]
+    d_types = [t for (t, _, _) in dsts]
+    SM = matrix(model, "setmatrix", s_types, d_types)
+    for j, (tb, B, ib) in enumerate(dsts):
+        # Tuple.set( *values) with one value assigns the single MEMBER of a 1-tuple
+        sb = str(B.value_type_specs()[0]) if isinstance(B, abi.TupleTypeSpec) and B.length_static() == 1 else str(B)
+        for i, (ta, A, ia) in enumerate(SI):
+            ok, how = try_call(lambda: ib.set(ia))
+            ck.count(("gate-set", ta, tb))
+            set_stats["set_calls"] += 1
+            set_stats["set_accepted"] += ok
+            record("gate-set", ta, tb, str(A), sb, SM[i][j] == "1", ok, how)
+    # dst.set(<ComputedValue producing spec a>): no instance of a needed, so every spec of U is a source
+    cd = [(t, A, instance_of(A)) for t, A in SU]
+    cd = [(t, A, i) for (t, A, i) in cd if i is not None and hasattr(i, "set")]
+    CM = matrix(model, "cvmatrix", U, [t for (t, _, _) in cd])
+    for j, (tb, B, ib) in enumerate(cd):
+        for i, (ta, A) in enumerate(SU):
+            ok, how = try_call(lambda: ib.set(_CV(A)))
+            ck.count(("gate-cv", ta, tb))
+            set_stats["computed_calls"] += 1
+            set_stats["computed_accepted"] += ok
+            record("gate-set-computed", ta, tb, str(A), str(B), CM[i][j] == "1", ok, how)
+    # member assignment: Tuple.set(v, flag), DynamicArray.set([v]), StaticArray.set([v]) with member type b
+    EU = [(t, A, i) for (t, A, i) in SI if AB.size(t) <= 3 and not AB.has_special(t)]
+    ck.rng.shuffle(EU)
+    EU = EU[: (400 if thorough else 150)]
+    e_types = [t for (t, _, _) in EU]
+    EM = matrix(model, "elemmatrix", e_types, e_types)
+    flag = abi.Bool()
+    for j, (tb, B, _) in enumerate(EU):
+        holders = [("tuple", abi.TupleTypeSpec(B, abi.BoolTypeSpec()).new_instance(), lambda h, v: h.set(v, flag)),
+                   ("darr", abi.DynamicArrayTypeSpec(B).new_instance(), lambda h, v: h.set([v])),
+                   ("sarr", abi.StaticArrayTypeSpec(B, 1).new_instance(), lambda h, v: h.set([v]))]
+        for i, (ta, A, ia) in enumerate(EU):
+            for hname, h, call in holders:
+                ok, how = try_call(lambda: call(h, ia))
+                ck.count(("gate-elem", hname, ta, tb))
+                set_stats["elem_calls"] += 1
+                set_stats["elem_accepted"] += ok
+                record("gate-set-member-" + hname, ta, tb, str(A), str(B), EM[i][j] == "1", ok, how)
+    gates.update(set_stats)
     ck.coverage["gates"] = gates
 
     # ---------------- 6. known findings ----------------
